@@ -653,7 +653,17 @@ func (f *File) WriteAt(p []byte, off int64) (n int, err error) {
 	f.ioLock.Lock()
 	defer f.ioLock.Unlock()
 
+	if off < 0 {
+		return 0, os.ErrInvalid
+	}
+
 	if err := f.enterWriteMode(); err != nil {
+		return 0, err
+	}
+
+	// Positioned writes leave the cursor where it was
+	pos, err := f.writeBuf.Seek(0, io.SeekCurrent)
+	if err != nil {
 		return 0, err
 	}
 
@@ -661,7 +671,16 @@ func (f *File) WriteAt(p []byte, off int64) (n int, err error) {
 		return 0, err
 	}
 
-	return f.writeBuf.Write(p)
+	n, err = f.writeBuf.Write(p)
+	if err != nil {
+		return n, err
+	}
+
+	if _, err := f.writeBuf.Seek(pos, io.SeekStart); err != nil {
+		return n, err
+	}
+
+	return n, nil
 }
 
 func (f *File) WriteString(s string) (ret int, err error) {
